@@ -62,7 +62,7 @@ m = {
                           "failing inputs when an obligation breaks",
     }],
     "checks": checks,
-    "notes": "see DESIGN.md; known findings in known_findings/*.json (one file per property; fixed.json lists repaired defects)",
+    "notes": "see DESIGN.md; known findings in known_findings/*.json (one file per property that has findings; repaired defects are recorded in that file or in fixed.json)",
     "not_applicable": na,
 }
 json.dump(m, open(os.path.join(HERE, "MANIFEST.json"), "w"), indent=1)
